@@ -272,6 +272,13 @@ impl Property for C14 {
             let preinstalled = rng.chance(1, 3);
             handlers.push(Handler { vector: if preinstalled { pool[i] } else { 0 }, kind: if rng.chance(1, 3) { HandlerKind::Empty } else { HandlerKind::Count }, at_zero: false });
         }
+        // one run in six: an empty handler lives at address 0 (its own table entry is all zero), so that set_handler is
+        // also asked to install the address 0
+        if rng.chance(1, 6) {
+            if let Some(h) = handlers.iter_mut().find(|h| h.kind == HandlerKind::Empty && h.vector != 0) {
+                h.at_zero = true;
+            }
+        }
         let n = rng.range(2, if tier == Tier::Quick { 14 } else { 30 }) as usize;
         let mut blocks = Vec::new();
         let mut events = Vec::new();
